@@ -71,7 +71,7 @@ var c05Replacements = []Flags{
 	{R: "ßé日本 😀"},
 	{R: "with space"},
 	{REmpty: true},
-	{R: "<&> line1\nline2\ttab"},
+	{R: "<&> line1\nline2\ttab \x1b[31mred\x1b[0m del\x7f bel\a vt\v nonprintable\U000e0001 ls\u2028"},
 	{R: customReplacement},
 	{R: "x@y.zz"},
 	{R: "$dollar"},
@@ -202,6 +202,26 @@ func c05Run(c *Ctx) {
 		}
 		j, err := ParseJSON([]byte(out))
 		if err != nil {
+			// A line that does not parse is C03's concern - unless it is the replacement text that breaks it: the
+			// same line under the default replacement parses, so the placeholder was not written as a JSON string
+			// holding exactly the configured text.
+			d := fl
+			d.R, d.REmpty = "", false
+			d.Apply()
+			o2, ok2, _ := redactLine(sc.Line)
+			fl.Apply()
+			if _, e2 := ParseJSON([]byte(o2)); ok2 && e2 == nil && (fl.R != "" || fl.REmpty) {
+				line := sc.Line
+				c.Violate("ph:string:replacement-text-breaks-the-line", fmt.Sprintf("with --replacement %q the emitted line is not valid JSON (%v), with the default replacement it is; slot %s; output: %s", fl.Replacement(), err, sc.C.SlotName, trunc(out, 500)),
+					int64(len(line)), replayOf(sc, fl, map[string]any{"output": out}),
+					func() bool {
+						fl.Apply()
+						o, ok, _ := redactLine(line)
+						_, e := ParseJSON([]byte(o))
+						return ok && e != nil
+					})
+				return
+			}
 			c.Count("skipped_unparsable_output", 1) // C03's concern
 			return
 		}
